@@ -70,7 +70,7 @@ static void check_set(int m, const char *pfx,
 static void tables_in_use(int order, int mf, unsigned k, rng_t *r)
 {
 	if (!rep_case("tables-in-use field=%d selection-order=%d k=%u n=15", mf, order, k)) return;
-	unsigned n = 15, L = 7; int other = mf == 4 ? 8 : 4; char key[96];
+	unsigned n = 15, L = 7 + 8 * (k % 4); int other = mf == 4 ? 8 : 4; char key[96];
 	of_session_t *s = NULL; UINT16 fs; of_status_t st = OF_STATUS_OK;
 	of_rs_2_m_parameters_t prm; memset(&prm, 0, sizeof prm);
 	prm.nb_source_symbols = k; prm.nb_repair_symbols = n - k; prm.encoding_symbol_length = L;
@@ -87,7 +87,8 @@ static void tables_in_use(int order, int mf, unsigned k, rng_t *r)
 	if (!field) { snprintf(key, sizeof key, "tables-in-use:advertised-field:order=%d", order); rep_viol(key, "MAX_N=%u after selecting field 2^%d", maxn, mf); }
 	else {
 		uint8_t *sym[16], *exp = malloc(L + 1); void *tab[16]; uint8_t *G = malloc((size_t)n * k + 1);
-		for (unsigned i = 0; i < n; i++) { sym[i] = calloc(1, L + 1); tab[i] = sym[i]; if (i < k) for (unsigned b = 0; b < L; b++) sym[i][b] = (uint8_t)rng_u64(r); }
+		uint8_t *base[16]; unsigned off = (order + k) & 7;      /* repair buffers at every offset within a word (payload behind a header) */
+		for (unsigned i = 0; i < n; i++) { base[i] = calloc(1, L + 16); sym[i] = base[i] + (i >= k ? off : (i & 7)); tab[i] = sym[i]; if (i < k) for (unsigned b = 0; b < L; b++) sym[i][b] = (uint8_t)rng_u64(r); }
 		if (rsref_generator(field, k, n, G)) rep_fatal("rsref: singular");
 		for (unsigned e = k; e < n; e++) {
 			if (of_build_repair_symbol(s, tab, e) != OF_STATUS_OK) { snprintf(key, sizeof key, "tables-in-use:encode-failed:order=%d", order); rep_viol(key, "field 2^%d k=%u esi=%u", field, k, e); break; }
@@ -95,7 +96,7 @@ static void tables_in_use(int order, int mf, unsigned k, rng_t *r)
 			if (memcmp(exp, sym[e], L)) { snprintf(key, sizeof key, "tables-in-use:gf2_%d:order=%d", field, order); rep_viol(key, "repair esi=%u of a k=%u n=15 code is not the product by the GF(2^%d) reference generator (the instance advertises MAX_N=%u)", e, k, field, maxn); break; }
 			rep_count("repair_symbols_checked_against_the_advertised_field", 1);
 		}
-		for (unsigned i = 0; i < n; i++) free(sym[i]);
+		for (unsigned i = 0; i < n; i++) free(base[i]);
 		free(exp); free(G);
 	}
 	of_release_codec_instance(s);
